@@ -5,7 +5,8 @@ import OntVerif.Util.Hex
 Transaction token `<e|o><payer>.<nonce>.<price>.<salt>` (`e` = EIP-155, `o` = other type); the model hash is the injective
 code of the token. Ops: `s:<tx>:<lag>` submit (stateful check at `tip-lag`, then AddTxList), `c:<tx>,<tx>…|-` commit,
 `n:<k>` validator.AddBlock(chain[k]), `k:<k>` pool.CleanCompleted(chain[k]), `g:<byCount>:<height>:<max>` GetTxPool,
-`p:<byCount>:<height>:<max>` proposer, `r` Remain, `b:<price>` RemoveTxsBelowGasPrice, `v` validator.Clean.
+`p:<byCount>:<height>:<max>` proposer, `r` Remain, `b:<price>` RemoveTxsBelowGasPrice, `v` validator.Clean,
+`y:<tx>:<start>` one IncrementValidator.Verify(tx, start, fresh context).
 Output: per-op results joined by `|`, then ` # pool=<sorted tokens> range=[b,e)`. -/
 namespace OntVerif.Driver.C35
 open OntVerif.Util OntVerif.Model.TxPool
@@ -90,6 +91,13 @@ def stepOp (s : Sys) (op : String) : Option (Sys × String) :=
       | some p => ({ s with pool := p }, "-")
       | none => (s, "PANIC")
   | ["v"] => some ({ s with val := s.val.clean }, "-")
+  | ["y", t, st] =>
+    match parseTx t, st.toNat? with
+    | some t, some st =>
+      let r := match (s.val.verify (acctOf s.acct0 s.chain) t st []).1 with
+        | .ok => "ok" | .base => "base" | .dup => "dup" | .nonce => "nonce"
+      some (s, r)
+    | _, _ => none
   | _ => none
 
 def runOps (s : Sys) : List String → List String → String
